@@ -604,6 +604,11 @@ func main() {
 				sizes = append(sizes, i)
 			}
 			sizes = append(sizes, 125, 126, 4096, 65537)
+			// every power of two up to 4 MiB with its neighbours: thresholds at which an
+			// implementation may switch to another way of copying and ciphering
+			for k := 7; k <= 22; k++ {
+				sizes = append(sizes, 1<<k-1, 1<<k, 1<<k+5)
+			}
 			for _, n := range sizes {
 				n := n
 				t.Do(func() string { return fmt.Sprintf("helpers n=%d", n) }, func() *explore.Fail {
